@@ -281,162 +281,220 @@ Definition do_log (e : env) (s : mstate) (ntopics : nat) : step_result :=
   | _ => halt s H_UNDERFLOW
   end.
 
-Definition step (e : env) (s : mstate) : step_result :=
+(* ---- decoded instructions (shared with the symbolic executor model) ---- *)
+Inductive bop := BAdd | BMul | BSub | BDiv | BSdiv | BMod | BSmod | BExp | BSignextend
+  | BLt | BGt | BSlt | BSgt | BEq | BAnd | BOr | BXor | BByte | BShl | BShr | BSar.
+Inductive uop := UIszero | UNot.
+Inductive top := TAddmod | TMulmod.
+Inductive envop := EAddress | EOrigin | ECaller | ECallvalue | ECalldatasize | ECodesize
+  | EReturndatasize | ECoinbase | ETimestamp | ENumber | EDifficulty | EGaslimit | EChainid
+  | ESelfbalance | EBasefee | EPc | EMsize.
+Inductive instr :=
+| IStop | IBin (b : bop) | IUn (u : uop) | ITern (t : top) | ISha3 | IEnv (g : envop)
+| IBalance | ICalldataload | ICalldatacopy | ICodecopy | IExtcodesize | IExtcodecopy
+| IReturndatacopy | IExtcodehash | IPop | IMload | IMstore | IMstore8 | ISload | ISstore
+| IJump | IJumpi | IJumpdest | ITload | ITstore | IMcopy | IPush0
+| IPush (n : nat) | IDup (n : nat) | ISwap (n : nat) | ILog (n : nat)
+| ICreate | ICall (op : Z) | IReturn | IRevert | IInvalid | IUnsupported (op : Z).
+
+Definition bop_sem (b : bop) : Z -> Z -> Z :=
+  match b with
+  | BAdd => evm_add | BMul => evm_mul | BSub => evm_sub | BDiv => evm_div | BSdiv => evm_sdiv
+  | BMod => evm_mod | BSmod => evm_smod | BExp => evm_exp | BSignextend => evm_signextend
+  | BLt => evm_lt | BGt => evm_gt | BSlt => evm_slt | BSgt => evm_sgt | BEq => evm_eq
+  | BAnd => evm_and | BOr => evm_or | BXor => evm_xor | BByte => evm_byte
+  | BShl => evm_shl | BShr => evm_shr | BSar => evm_sar
+  end.
+Definition uop_sem (u : uop) : Z -> Z := match u with UIszero => evm_iszero | UNot => evm_not end.
+Definition top_sem (t : top) : Z -> Z -> Z -> Z :=
+  match t with TAddmod => evm_addmod | TMulmod => evm_mulmod end.
+
+Definition decode_op (op : Z) : instr :=
+  if (96 <=? op) && (op <=? 127) then IPush (Z.to_nat (op - 95))
+  else if (128 <=? op) && (op <=? 143) then IDup (Z.to_nat (op - 128))
+  else if (144 <=? op) && (op <=? 159) then ISwap (Z.to_nat (op - 143))
+  else if (160 <=? op) && (op <=? 164) then ILog (Z.to_nat (op - 160))
+  else
+  match op with
+  | 0 => IStop
+  | 1 => IBin BAdd | 2 => IBin BMul | 3 => IBin BSub | 4 => IBin BDiv | 5 => IBin BSdiv
+  | 6 => IBin BMod | 7 => IBin BSmod | 8 => ITern TAddmod | 9 => ITern TMulmod
+  | 10 => IBin BExp | 11 => IBin BSignextend
+  | 16 => IBin BLt | 17 => IBin BGt | 18 => IBin BSlt | 19 => IBin BSgt | 20 => IBin BEq
+  | 21 => IUn UIszero | 22 => IBin BAnd | 23 => IBin BOr | 24 => IBin BXor | 25 => IUn UNot
+  | 26 => IBin BByte | 27 => IBin BShl | 28 => IBin BShr | 29 => IBin BSar
+  | 32 => ISha3
+  | 48 => IEnv EAddress | 49 => IBalance | 50 => IEnv EOrigin | 51 => IEnv ECaller
+  | 52 => IEnv ECallvalue | 53 => ICalldataload | 54 => IEnv ECalldatasize | 55 => ICalldatacopy
+  | 56 => IEnv ECodesize | 57 => ICodecopy | 58 => IUnsupported 58 | 59 => IExtcodesize
+  | 60 => IExtcodecopy | 61 => IEnv EReturndatasize | 62 => IReturndatacopy | 63 => IExtcodehash
+  | 64 => IUnsupported 64
+  | 65 => IEnv ECoinbase | 66 => IEnv ETimestamp | 67 => IEnv ENumber | 68 => IEnv EDifficulty
+  | 69 => IEnv EGaslimit | 70 => IEnv EChainid | 71 => IEnv ESelfbalance | 72 => IEnv EBasefee
+  | 80 => IPop | 81 => IMload | 82 => IMstore | 83 => IMstore8 | 84 => ISload | 85 => ISstore
+  | 86 => IJump | 87 => IJumpi | 88 => IEnv EPc | 89 => IEnv EMsize | 90 => IUnsupported 90
+  | 91 => IJumpdest | 92 => ITload | 93 => ITstore | 94 => IMcopy | 95 => IPush0
+  | 240 => ICreate | 241 | 242 | 244 | 250 => ICall op
+  | 243 => IReturn | 253 => IRevert
+  | 245 => IUnsupported 245 | 254 => IInvalid | 255 => IUnsupported 255
+  | _ => IInvalid                                            (* undefined opcode *)
+  end.
+
+Definition env_value (e : env) (s : mstate) (g : envop) : Z :=
+  let w := s_world s in
+  match g with
+  | EAddress => e_this e | EOrigin => e_origin e | ECaller => e_caller e | ECallvalue => e_value e
+  | ECalldatasize => Z.of_nat (length (e_data e)) | ECodesize => Z.of_nat (length (e_code e))
+  | EReturndatasize => Z.of_nat (length (s_ret s))
+  | ECoinbase => b_coinbase (e_block e) | ETimestamp => b_timestamp (e_block e)
+  | ENumber => b_number (e_block e) | EDifficulty => b_difficulty (e_block e)
+  | EGaslimit => b_gaslimit (e_block e) | EChainid => b_chainid (e_block e)
+  | ESelfbalance => get_balance w (e_this e) | EBasefee => b_basefee (e_block e)
+  | EPc => Z.of_nat (s_pc s) | EMsize => Z.of_nat (length (s_mem s))
+  end.
+
+Definition step_i (i : instr) (e : env) (s : mstate) : step_result :=
   let code := e_code e in
   let pc := s_pc s in
   let st := s_stack s in
   let w := s_world s in
-  match nth_error code pc with
-  | None => Done (ROk w (s_ctr s) [] (s_logs s))            (* implicit STOP *)
-  | Some op =>
-      if (96 <=? op) && (op <=? 127) then                     (* PUSH1..PUSH32 *)
-        let n := Z.to_nat (op - 95) in
-        let v := be_num 0 (zread code (S pc) n) in
-        if (1024 <? S (length st))%nat then halt s H_OVERFLOW
-        else Continue (with_stack s (v :: st) (pc + 1 + n))
-      else if (128 <=? op) && (op <=? 143) then               (* DUP1..16 *)
-        match nth_error st (Z.to_nat (op - 128)) with
-        | Some v => push s v
-        | None => halt s H_UNDERFLOW
-        end
-      else if (144 <=? op) && (op <=? 159) then               (* SWAP1..16 *)
-        let n := Z.to_nat (op - 143) in
-        match st, nth_error st n with
-        | a :: r, Some b => next s (b :: firstn (n - 1) r ++ a :: skipn n r)
-        | _, _ => halt s H_UNDERFLOW
-        end
-      else if (160 <=? op) && (op <=? 164) then do_log e s (Z.to_nat (op - 160))
-      else
-      match op with
-      | 0 => Done (ROk w (s_ctr s) [] (s_logs s))
-      | 1 => binop s evm_add | 2 => binop s evm_mul | 3 => binop s evm_sub
-      | 4 => binop s evm_div | 5 => binop s evm_sdiv | 6 => binop s evm_mod
-      | 7 => binop s evm_smod | 8 => ternop s evm_addmod | 9 => ternop s evm_mulmod
-      | 10 => binop s evm_exp | 11 => binop s evm_signextend
-      | 16 => binop s evm_lt | 17 => binop s evm_gt | 18 => binop s evm_slt
-      | 19 => binop s evm_sgt | 20 => binop s evm_eq | 21 => unop s evm_iszero
-      | 22 => binop s evm_and | 23 => binop s evm_or | 24 => binop s evm_xor
-      | 25 => unop s evm_not | 26 => binop s evm_byte
-      | 27 => binop s evm_shl | 28 => binop s evm_shr | 29 => binop s evm_sar
-      | 32 =>                                                  (* SHA3 *)
-          match st with
-          | off :: size :: r =>
-              if oog_range off size then halt s H_OOG
-              else
-                let m1 := mexpand (s_mem s) (Z.to_nat off) (Z.to_nat size) in
-                next (with_mem s m1) (keccak_bytes (mread m1 (Z.to_nat off) (Z.to_nat size)) :: r)
-          | _ => halt s H_UNDERFLOW
-          end
-      | 48 => push s (e_this e)
-      | 49 => unop s (fun a => get_balance w (a mod 2 ^ 160))
-      | 50 => push s (e_origin e)
-      | 51 => push s (e_caller e)
-      | 52 => push s (e_value e)
-      | 53 => unop s (fun off => be_num 0 (zread (e_data e) (Z.to_nat off) 32))
-      | 54 => push s (Z.of_nat (length (e_data e)))
-      | 55 => match st with                                    (* CALLDATACOPY *)
-              | d :: o :: n :: r => copy_to_mem s r d o n (e_data e)
-              | _ => halt s H_UNDERFLOW end
-      | 56 => push s (Z.of_nat (length code))
-      | 57 => match st with                                    (* CODECOPY *)
-              | d :: o :: n :: r => copy_to_mem s r d o n code
-              | _ => halt s H_UNDERFLOW end
-      | 58 => Done (RUnsupported 58)                           (* GASPRICE *)
-      | 59 => unop s (fun a => Z.of_nat (length (get_code w (a mod 2 ^ 160))))
-      | 60 => match st with                                    (* EXTCODECOPY *)
-              | a :: d :: o :: n :: r => copy_to_mem s r d o n (get_code w (a mod 2 ^ 160))
-              | _ => halt s H_UNDERFLOW end
-      | 61 => push s (Z.of_nat (length (s_ret s)))
-      | 62 => match st with                                    (* RETURNDATACOPY *)
-              | d :: o :: n :: r =>
-                  if Z.of_nat (length (s_ret s)) <? o + n then halt s H_OOB
-                  else copy_to_mem s r d o n (s_ret s)
-              | _ => halt s H_UNDERFLOW end
-      | 63 => unop s (fun a =>                                 (* EXTCODEHASH *)
-                let a := a mod 2 ^ 160 in
-                if has_account w a then keccak_bytes (get_code w a) else 0)
-      | 64 => Done (RUnsupported 64)                           (* BLOCKHASH *)
-      | 65 => push s (b_coinbase (e_block e))
-      | 66 => push s (b_timestamp (e_block e))
-      | 67 => push s (b_number (e_block e))
-      | 68 => push s (b_difficulty (e_block e))
-      | 69 => push s (b_gaslimit (e_block e))
-      | 70 => push s (b_chainid (e_block e))
-      | 71 => push s (get_balance w (e_this e))
-      | 72 => push s (b_basefee (e_block e))
-      | 80 => match st with _ :: r => next s r | _ => halt s H_UNDERFLOW end
-      | 81 => match st with                                    (* MLOAD *)
-              | off :: r =>
-                  if oog_word off then halt s H_OOG
-                  else let m1 := mexpand (s_mem s) (Z.to_nat off) 32 in
-                       next (with_mem s m1) (be_num 0 (mread m1 (Z.to_nat off) 32) :: r)
-              | _ => halt s H_UNDERFLOW end
-      | 82 => match st with                                    (* MSTORE *)
-              | off :: v :: r =>
-                  if oog_word off then halt s H_OOG
-                  else let m1 := mexpand (s_mem s) (Z.to_nat off) 32 in
-                       next (with_mem s (mwrite m1 (Z.to_nat off) (be_bytes 32 v))) r
-              | _ => halt s H_UNDERFLOW end
-      | 83 => match st with                                    (* MSTORE8 *)
-              | off :: v :: r =>
-                  if oog_word off then halt s H_OOG
-                  else let m1 := mexpand (s_mem s) (Z.to_nat off) 1 in
-                       next (with_mem s (mwrite m1 (Z.to_nat off) [v mod 256])) r
-              | _ => halt s H_UNDERFLOW end
-      | 84 => unop s (fun k => sload_of (w_storage w) (e_this e) k)
-      | 85 => match st with                                    (* SSTORE *)
-              | k :: v :: r =>
-                  if e_static e then halt s H_STATIC
-                  else next (with_world s (mkWorld (w_code w) (sstore_of (w_storage w) (e_this e) k v)
-                                                   (w_transient w) (w_balance w))) r
-              | _ => halt s H_UNDERFLOW end
-      | 86 => match st with                                    (* JUMP *)
-              | t :: r => if is_jumpdest code t then Continue (with_stack s r (Z.to_nat t))
-                          else halt s H_BADJUMP
-              | _ => halt s H_UNDERFLOW end
-      | 87 => match st with                                    (* JUMPI *)
-              | t :: c :: r =>
-                  if c =? 0 then next s r
-                  else if is_jumpdest code t then Continue (with_stack s r (Z.to_nat t))
-                  else halt s H_BADJUMP
-              | _ => halt s H_UNDERFLOW end
-      | 88 => push s (Z.of_nat pc)
-      | 89 => push s (Z.of_nat (length (s_mem s)))
-      | 90 => Done (RUnsupported 90)                           (* GAS *)
-      | 91 => next s st
-      | 92 => unop s (fun k => sload_of (w_transient w) (e_this e) k)
-      | 93 => match st with                                    (* TSTORE *)
-              | k :: v :: r =>
-                  if e_static e then halt s H_STATIC
-                  else next (with_world s (mkWorld (w_code w) (w_storage w)
-                                                   (sstore_of (w_transient w) (e_this e) k v) (w_balance w))) r
-              | _ => halt s H_UNDERFLOW end
-      | 94 => match st with                                    (* MCOPY *)
-              | d :: o :: n :: r =>
-                  if oog_range o n then halt s H_OOG
-                  else
-                    let m1 := mexpand (s_mem s) (Z.to_nat o) (Z.to_nat n) in
-                    copy_to_mem (with_mem s m1) r d 0 n (mread m1 (Z.to_nat o) (Z.to_nat n))
-              | _ => halt s H_UNDERFLOW end
-      | 95 => push s 0
-      | 240 => do_create e s
-      | 241 | 242 | 244 | 250 => do_call e s op
-      | 243 | 253 =>                                           (* RETURN / REVERT *)
-          match st with
-          | off :: size :: _ =>
-              if oog_range off size then halt s H_OOG
-              else
-                let m1 := mexpand (s_mem s) (Z.to_nat off) (Z.to_nat size) in
-                let data := mread m1 (Z.to_nat off) (Z.to_nat size) in
-                if op =? 243 then Done (ROk w (s_ctr s) data (s_logs s))
-                else Done (RRevert (s_ctr s) data)
-          | _ => halt s H_UNDERFLOW
-          end
-      | 245 => Done (RUnsupported 245)                         (* CREATE2 *)
-      | 254 => halt s H_INVALID
-      | 255 => Done (RUnsupported 255)                         (* SELFDESTRUCT *)
-      | _ => halt s H_INVALID                                  (* undefined opcode *)
+  match i with
+  | IPush n =>
+      let v := be_num 0 (zread code (S pc) n) in
+      if (1024 <? S (length st))%nat then halt s H_OVERFLOW
+      else Continue (with_stack s (v :: st) (pc + 1 + n))
+  | IDup n =>
+      match nth_error st n with
+      | Some v => push s v
+      | None => halt s H_UNDERFLOW
       end
+  | ISwap n =>
+      match st, nth_error st n with
+      | a :: r, Some b => next s (b :: firstn (n - 1) r ++ a :: skipn n r)
+      | _, _ => halt s H_UNDERFLOW
+      end
+  | ILog n => do_log e s n
+  | IStop => Done (ROk w (s_ctr s) [] (s_logs s))
+  | IBin b => binop s (bop_sem b)
+  | IUn u => unop s (uop_sem u)
+  | ITern t => ternop s (top_sem t)
+  | ISha3 =>
+      match st with
+      | off :: size :: r =>
+          if oog_range off size then halt s H_OOG
+          else
+            let m1 := mexpand (s_mem s) (Z.to_nat off) (Z.to_nat size) in
+            next (with_mem s m1) (keccak_bytes (mread m1 (Z.to_nat off) (Z.to_nat size)) :: r)
+      | _ => halt s H_UNDERFLOW
+      end
+  | IEnv g => push s (env_value e s g)
+  | IBalance => unop s (fun a => get_balance w (a mod 2 ^ 160))
+  | ICalldataload => unop s (fun off => be_num 0 (zread (e_data e) (Z.to_nat off) 32))
+  | ICalldatacopy =>
+      match st with
+      | d :: o :: n :: r => copy_to_mem s r d o n (e_data e)
+      | _ => halt s H_UNDERFLOW end
+  | ICodecopy =>
+      match st with
+      | d :: o :: n :: r => copy_to_mem s r d o n code
+      | _ => halt s H_UNDERFLOW end
+  | IExtcodesize => unop s (fun a => Z.of_nat (length (get_code w (a mod 2 ^ 160))))
+  | IExtcodecopy =>
+      match st with
+      | a :: d :: o :: n :: r => copy_to_mem s r d o n (get_code w (a mod 2 ^ 160))
+      | _ => halt s H_UNDERFLOW end
+  | IReturndatacopy =>
+      match st with
+      | d :: o :: n :: r =>
+          if Z.of_nat (length (s_ret s)) <? o + n then halt s H_OOB
+          else copy_to_mem s r d o n (s_ret s)
+      | _ => halt s H_UNDERFLOW end
+  | IExtcodehash =>
+      unop s (fun a => let a := a mod 2 ^ 160 in
+                       if has_account w a then keccak_bytes (get_code w a) else 0)
+  | IPop => match st with _ :: r => next s r | _ => halt s H_UNDERFLOW end
+  | IMload =>
+      match st with
+      | off :: r =>
+          if oog_word off then halt s H_OOG
+          else let m1 := mexpand (s_mem s) (Z.to_nat off) 32 in
+               next (with_mem s m1) (be_num 0 (mread m1 (Z.to_nat off) 32) :: r)
+      | _ => halt s H_UNDERFLOW end
+  | IMstore =>
+      match st with
+      | off :: v :: r =>
+          if oog_word off then halt s H_OOG
+          else let m1 := mexpand (s_mem s) (Z.to_nat off) 32 in
+               next (with_mem s (mwrite m1 (Z.to_nat off) (be_bytes 32 v))) r
+      | _ => halt s H_UNDERFLOW end
+  | IMstore8 =>
+      match st with
+      | off :: v :: r =>
+          if oog_word off then halt s H_OOG
+          else let m1 := mexpand (s_mem s) (Z.to_nat off) 1 in
+               next (with_mem s (mwrite m1 (Z.to_nat off) [v mod 256])) r
+      | _ => halt s H_UNDERFLOW end
+  | ISload => unop s (fun k => sload_of (w_storage w) (e_this e) k)
+  | ISstore =>
+      match st with
+      | k :: v :: r =>
+          if e_static e then halt s H_STATIC
+          else next (with_world s (mkWorld (w_code w) (sstore_of (w_storage w) (e_this e) k v)
+                                           (w_transient w) (w_balance w))) r
+      | _ => halt s H_UNDERFLOW end
+  | IJump =>
+      match st with
+      | t :: r => if is_jumpdest code t then Continue (with_stack s r (Z.to_nat t))
+                  else halt s H_BADJUMP
+      | _ => halt s H_UNDERFLOW end
+  | IJumpi =>
+      match st with
+      | t :: c :: r =>
+          if c =? 0 then next s r
+          else if is_jumpdest code t then Continue (with_stack s r (Z.to_nat t))
+          else halt s H_BADJUMP
+      | _ => halt s H_UNDERFLOW end
+  | IJumpdest => next s st
+  | ITload => unop s (fun k => sload_of (w_transient w) (e_this e) k)
+  | ITstore =>
+      match st with
+      | k :: v :: r =>
+          if e_static e then halt s H_STATIC
+          else next (with_world s (mkWorld (w_code w) (w_storage w)
+                                           (sstore_of (w_transient w) (e_this e) k v) (w_balance w))) r
+      | _ => halt s H_UNDERFLOW end
+  | IMcopy =>
+      match st with
+      | d :: o :: n :: r =>
+          if oog_range o n then halt s H_OOG
+          else
+            let m1 := mexpand (s_mem s) (Z.to_nat o) (Z.to_nat n) in
+            copy_to_mem (with_mem s m1) r d 0 n (mread m1 (Z.to_nat o) (Z.to_nat n))
+      | _ => halt s H_UNDERFLOW end
+  | IPush0 => push s 0
+  | ICreate => do_create e s
+  | ICall op => do_call e s op
+  | IReturn | IRevert =>
+      match st with
+      | off :: size :: _ =>
+          if oog_range off size then halt s H_OOG
+          else
+            let m1 := mexpand (s_mem s) (Z.to_nat off) (Z.to_nat size) in
+            let data := mread m1 (Z.to_nat off) (Z.to_nat size) in
+            match i with
+            | IReturn => Done (ROk w (s_ctr s) data (s_logs s))
+            | _ => Done (RRevert (s_ctr s) data)
+            end
+      | _ => halt s H_UNDERFLOW
+      end
+  | IInvalid => halt s H_INVALID
+  | IUnsupported x => Done (RUnsupported x)
+  end.
+
+Definition step (e : env) (s : mstate) : step_result :=
+  match nth_error (e_code e) (s_pc s) with
+  | None => Done (ROk (s_world s) (s_ctr s) [] (s_logs s))            (* implicit STOP *)
+  | Some op => step_i (decode_op op) e s
   end.
 End Step.
 
